@@ -225,7 +225,7 @@ Example C06_nonvacuous_hip :
 Proof. vm_compute. split; reflexivity. Qed.
 (* the ICON polynomial branch on a concrete input, and the clamp raising a too small result *)
 Example C06_nonvacuous_icon :
-  match icon_estimate 10 3000 with Exact 3 v => PrimFloat.ltb (fofZ 3000) v | _ => false end
+  match icon_estimate 10 3000 PrimFloat.one with Exact 3 v => PrimFloat.ltb (fofZ 3000) v | _ => false end
   && PrimFloat.eqb (icon_clamp fops (fofZ 5) 9) (fofZ 9) = true.
 Proof. vm_compute. reflexivity. Qed.
 
